@@ -149,6 +149,8 @@ fn tokenize(text: &str) -> Vec<String> {
 }
 
 const BIG: [&str; 6] = ["9223372036854775807", "9223372036854775808", "-9223372036854775808", "-9223372036854775809", "123456789012345678901234567890", "18446744073709551616"];
+/// identifiers carrying a digit string beyond every machine integer (numeral inflation inside names)
+const BIG_IDS: [&str; 8] = ["V99999999999999999999999", "X18446744073709551616", "N99999999999999999999999", "Z123456789012345678901234567890", "I99999999999999999999999", "p99999999999999999999999", "a99999999999999999999999", "V1_99999999999999999999999"];
 
 fn alphabet(kind: Kind) -> Vec<&'static str> {
     let mut v: Vec<&'static str> = match kind {
@@ -224,7 +226,7 @@ fn walk(dir: &std::path::Path, out: &mut Vec<String>) {
 
 pub fn run(run: &Run) {
     let quick = run.quick();
-    run.set_rule("(i) every string of <= 3 (thorough 4) tokens over each grammar's token alphabet (26 / 40 tokens + 6 boundary numerals) for the program, theory, specification, user-guide and proof-outline parsers; (ii) for every .lp/.spec/.ug/.po file under res/examples and tests/ui: every single-token edit (delete, duplicate, swap with neighbour, replace by each alphabet token) at every position and every pair of deletions within a window of 4 tokens (quick: a stride of the files); every accepted text is pushed through all later stages (tau*, natural, mu, gamma, completion, portfolios x strategies, default and TPTP formatting, tightness, regularity, strong and external task assembly with fixed partners); oracle: no panic (catch_unwind + panic hook), no input slower than 5 s; non-trivial = accepted texts (hashed to 2048 buckets)");
+    run.set_rule("(i) every string of <= 3 (thorough 4) tokens over each grammar's token alphabet (26 / 40 tokens + 6 boundary numerals) for the program, theory, specification, user-guide and proof-outline parsers; (ii) for every .lp/.spec/.ug/.po file under res/examples and tests/ui: every single-token edit (delete, duplicate, swap with neighbour, inflate an identifier/numeral with 23 digits, replace by each alphabet token) at every position and every pair of deletions within a window of 4 tokens (quick: a stride of the files); every accepted text is pushed through all later stages (tau*, natural, mu, gamma, completion, portfolios x strategies, default and TPTP formatting, tightness, regularity, strong and external task assembly with fixed partners); oracle: no panic (catch_unwind + panic hook), no input slower than 5 s; non-trivial = accepted texts (hashed to 2048 buckets)");
     run.assume("the property's quantifier (all byte strings up to a few KB) is not enumerable; the claim is limited to the stated edit/length bounds");
     run.assume("a genuine hang would stall the run and is caught by the driver's wall-clock limit, not classified in-process");
     // (i) token strings
@@ -260,6 +262,25 @@ pub fn run(run: &Run) {
                 strs.push(f.replace("{}", b));
             }
         }
+        // inflated identifiers in every identifier position of a valid text
+        let id_frames: Vec<&str> = match kind {
+            Kind::Program => vec!["p({V}) :- q({V}).", "p(X) :- q(X, {V}).", "{P}({V}).", "p({S}).", "{p({V}+1)} :- q({V}).", "p(1..{V}) :- q({V})."],
+            Kind::Theory => vec!["forall {V} ({P}({V})).", "exists {V}$i ({V}$i = 1).", "p({S}).", "forall {V} (p({V}) -> exists {V}1 (q({V}1)))."],
+            Kind::Specification => vec!["spec: forall {V} ({P}({V}) -> q({V})).", "assumption[{S}]: p({S})."],
+            Kind::UserGuide => vec!["input: {P}/1.", "input: {S} -> integer.", "assumption: forall {V} ({P}({V}))."],
+            Kind::Outline => vec!["lemma[{S}]: forall {V} (in({V}) -> in({V})).", "definition: forall {V} (d({V}) <-> in({V})).", "inductive-lemma: forall {V}$i ({V}$i >= 0 -> in({V}$i))."],
+        };
+        for f in id_frames {
+            for b in BIG_IDS {
+                let up = b.chars().next().unwrap().is_ascii_uppercase();
+                if f.contains("{V}") && up {
+                    strs.push(f.replace("{V}", b).replace("{P}", "p").replace("{S}", "a"));
+                }
+                if !up {
+                    strs.push(f.replace("{P}", b).replace("{S}", b).replace("{V}", "X"));
+                }
+            }
+        }
         run.count(&format!("token_strings_{kind:?}"), strs.len() as u64);
         strs.par_iter().for_each(|s| check(run, kind, s, "token string"));
     }
@@ -292,6 +313,11 @@ pub fn run(run: &Run) {
                 let mut sw = toks.clone();
                 sw.swap(i, i + 1);
                 muts.push(join(&sw));
+            }
+            if toks[i].chars().all(|c| c.is_ascii_alphanumeric() || c == '_') {
+                let mut inf = toks.clone();
+                inf[i] = format!("{}99999999999999999999999", toks[i]);
+                muts.push(join(&inf));
             }
             for r in &a {
                 if quick && (i + r.len()) % 4 != 0 {
